@@ -317,3 +317,217 @@ Proof. destruct t as [s p [n|c d]]; reflexivity. Qed.
 
 Lemma map_erase_lex_idem g : map erase_lex (map erase_lex g) = map erase_lex g.
 Proof. rewrite map_map. apply map_ext. exact erase_lex_idem. Qed.
+
+(** ** C. from the TEXT of an N-Triples document to the abstract graph *)
+
+(** what an N-Triples statement denotes for the pipeline: C06's [kinded]
+    (node kinds, IRIs, blank-node identifiers with their sigil, the datatype of
+    a literal) written as a [Spec.Rdf.triple]; the lexical form is erased
+    ([run_shapes_erase_lex]: the pipeline never looks at it) *)
+Definition nt_node (n : NtSyntax.snode) : node :=
+  match n with
+  | NtSyntax.NIri s => Node KIri s
+  | NtSyntax.NBn l => Node KBnode (Str "_:" ++ l)
+  end.
+
+Definition nt_obj (o : NtSyntax.sobj) : obj :=
+  match o with
+  | NtSyntax.ONode n => ON (nt_node n)
+  | NtSyntax.OLit _ suf => OL [] (NtSyntax.dt_of suf)
+  end.
+
+Definition nt_triple (t : NtSyntax.striple) : triple :=
+  T (nt_node (NtSyntax.t_s t)) (NtSyntax.t_p t) (nt_obj (NtSyntax.t_o t)).
+
+Definition nt_graph (ts : list (NtSyntax.striple * NtSyntax.layout)) : graph :=
+  map (fun x => nt_triple (fst x)) ts.
+
+(** C06's observation type read as a triple *)
+Definition node_of_k (k : NtSyntax.kterm) : option node :=
+  match k with
+  | NtSyntax.KIri s => Some (Node KIri s)
+  | NtSyntax.KBn s => Some (Node KBnode s)
+  | NtSyntax.KLit _ => None
+  end.
+
+Definition obj_of_k (k : NtSyntax.kterm) : obj :=
+  match k with
+  | NtSyntax.KIri s => ON (Node KIri s)
+  | NtSyntax.KBn s => ON (Node KBnode s)
+  | NtSyntax.KLit dt => OL [] dt
+  end.
+
+Definition triple_of_k (x : NtSyntax.kterm * str * NtSyntax.kterm) : option triple :=
+  match node_of_k (fst (fst x)) with
+  | Some s => Some (T s (snd (fst x)) (obj_of_k (snd x)))
+  | None => None
+  end.
+
+(** [nt_triple] is [NtSyntax.kinded] *)
+Lemma triple_of_kinded t : triple_of_k (NtSyntax.kinded t) = Some (nt_triple t).
+Proof. destruct t as [[u|l] p [[u'|l']|lex suf]]; reflexivity. Qed.
+
+(** the two conversions commute up to the lexical form: what C06 observes of a
+    yielded triple ([k3]) determines the pipeline's triple up to [erase_lex] *)
+Lemma k3_commutes x t :
+  triple_of_k (NtProofs.k3 x) = Some t ->
+  exists t', triple_of_m (nt_mtriple x) = Some t' /\ erase_lex t' = t.
+Proof.
+  destruct x as [[s p] o]. unfold NtProofs.k3, triple_of_k, nt_mtriple, triple_of_m. cbn [fst snd m_s m_p m_o].
+  destruct s as [u|l|c d]; cbn [NtProofs.term_k node_of_k nt_mterm node_of_mterm]; intros H; try discriminate H;
+    injection H as <-; destruct o as [u'|l'|c' d']; eexists; split; reflexivity.
+Qed.
+
+Lemma k3_list_commutes ys : forall ts,
+  map NtProofs.k3 ys = map (fun x => NtSyntax.kinded (fst x)) ts ->
+  exists G, graph_of_m (map nt_mtriple ys) = Some G /\ map erase_lex G = nt_graph ts.
+Proof.
+  induction ys as [|y ys IH]; intros [|x ts] H; try discriminate H.
+  - exists []. split; reflexivity.
+  - cbn [map] in H. injection H as Hy Hys.
+    destruct (IH ts Hys) as (G & HG & HE).
+    destruct (k3_commutes y (nt_triple (fst x))) as (t' & Ht & He).
+    { rewrite Hy. apply triple_of_kinded. }
+    exists (t' :: G). split.
+    + cbn [map graph_of_m]. rewrite Ht, HG. reflexivity.
+    + cbn [map nt_graph]. rewrite He. f_equal. exact HE.
+Qed.
+
+Definition nt_ok_case (x : NtSyntax.striple * NtSyntax.layout) : Prop :=
+  NtSyntax.valid_triple (fst x) = true /\ NtSyntax.valid_layout (snd x) = true /\ NtDom.C06_dom (fst x) (snd x) = true.
+
+(** C06's document theorem read at the channel: the raw-string channel
+    delivers a stream denoting [nt_graph ts] up to lexical forms *)
+Lemma nt_raw_stream pyfloat read_ttl gunzip unxz unzip rdf_parse allow o ts :
+  Forall nt_ok_case ts ->
+  exists ms G,
+    rd_stream (channel pyfloat (nt_reader allow) read_ttl gunzip unxz unzip rdf_parse o (Str "nt") None
+                       (SRaw (NtSyntax.nt_doc ts))) = inl ms /\
+    graph_of_m ms = Some G /\ map erase_lex G = nt_graph ts.
+Proof.
+  intros H. pose proof (NtProofs.document_partial allow ts H) as K.
+  rewrite nt_chan_raw. destruct (NtReader.read_raw_string allow (NtSyntax.nt_doc ts)) as [ys e|ys e x|ys e]; try discriminate K.
+  cbn [NtProofs.kinded_result] in K. injection K as K _.
+  destruct (k3_list_commutes ys ts K) as (G & HG & HE).
+  exists (map nt_mtriple ys), G. split; [reflexivity | split; assumption].
+Qed.
+
+Lemma Forall_concat_inv {A} (P : A -> Prop) (l : list (list A)) : Forall P (List.concat l) -> Forall (Forall P) l.
+Proof.
+  induction l as [|x l IH]; intros H; [constructor|]. cbn [List.concat] in H. apply Forall_app in H.
+  destruct H. constructor; auto.
+Qed.
+
+Lemma Forall_concat_inv2 {A} (P : A -> Prop) (l : list (list (list A))) :
+  Forall P (List.concat (List.concat l)) -> Forall (Forall (Forall P)) l.
+Proof. intros H. apply Forall_concat_inv in H. induction l as [|x l IH]; [constructor|].
+  cbn [List.concat] in H. apply Forall_app in H. destruct H. constructor; [assumption | auto]. Qed.
+
+Section NtText.
+  Variable pyfloat : str -> option bool.
+  Variable allow : bool.
+  Variable read_ttl : list str -> rd.
+  Variable gunzip unxz : str -> option str.
+  Variable unzip : str -> option (list (str * str)).
+  Variable rdf_parse : str -> str -> option (list rtriple).
+  Variable fa : FreqAlg.
+
+  Notation chan := (channel pyfloat (nt_reader allow) read_ttl gunzip unxz unzip rdf_parse).
+  Notation passes1 := (passes pyfloat (nt_reader allow) read_ttl gunzip unxz unzip rdf_parse).
+
+  (** *** deliverable 2: C06 ; C08 ; pipeline *)
+  Theorem nt_text_to_graph c thr (o1 o2 : porc) ts :
+    Forall nt_ok_case ts ->
+    run_over_passes fa c thr (passes1 o1 o2 (Str "nt") None (SRaw (NtSyntax.nt_doc ts)))
+    = Some (run_shapes fa c thr (nt_graph ts)).
+  Proof.
+    intros H.
+    destruct (nt_raw_stream pyfloat read_ttl gunzip unxz unzip rdf_parse allow o1 ts H) as (ms & G & H1 & HG & HE).
+    destruct (nt_raw_stream pyfloat read_ttl gunzip unxz unzip rdf_parse allow o2 ts H) as (ms2 & G2 & H2 & HG2 & HE2).
+    assert (ms2 = ms) as ->.
+    { rewrite !nt_chan_raw in *. rewrite H1 in H2. injection H2 as ->. reflexivity. }
+    unfold run_over_passes, graphs_of_passes, passes. cbn [fst snd]. rewrite H1, H2, HG.
+    rewrite run_shapes2_same. f_equal. rewrite <- HE. symmetry. apply run_shapes_erase_lex.
+  Qed.
+
+  (** the lines of the document, whatever the terminator convention *)
+  Definition nt_lines (ts : list (NtSyntax.striple * NtSyntax.layout)) : list str :=
+    map (fun x => NtSyntax.nt_line (fst x) (snd x)) ts.
+
+  Lemma nt_lines_nonblank ts : filter nonblank (nt_lines ts) = nt_lines ts.
+  Proof.
+    apply NtProofs.filter_all. apply forallb_forall. intros ln I. apply in_map_iff in I.
+    destruct I as ([t l] & <- & _). apply NtProofs.line_not_blank.
+  Qed.
+
+  Lemma nt_raw_lines_same o o' ts :
+    Forall nt_ok_case ts -> Forall line_ok (nt_lines ts) ->
+    chan o (Str "nt") None (SRaw (render_lines (nt_lines ts))) = chan o' (Str "nt") None (SRaw (NtSyntax.nt_doc ts)).
+  Proof.
+    intros H Hok.
+    rewrite !(chan_raw pyfloat (nt_reader allow) read_ttl gunzip unxz unzip rdf_parse _ _ _ _ (Fam_nt pyfloat (nt_reader allow))).
+    rewrite lines_raw_render by exact Hok. rewrite nt_lines_nonblank, lines_raw_is_raw_string_lines.
+    rewrite (NtProofs.raw_lines_doc ts H). reflexivity.
+  Qed.
+
+  (** ... and over every partition of the document's lines into files /
+      compressed files / zip members / zip archives *)
+  Theorem nt_text_channel_independent c thr (o1 o2 : porc) ts :
+    Forall nt_ok_case ts -> Forall line_ok (nt_lines ts) ->
+    (forall cm lss stored,
+        List.concat lss = nt_lines ts -> cm_plain cm ->
+        Forall2 (stored_as gunzip unxz cm) (map render_lines lss) stored ->
+        run_over_passes fa c thr (passes1 o1 o2 (Str "nt") cm (SFiles stored)) = Some (run_shapes fa c thr (nt_graph ts))) /\
+    (forall cm st,
+        cm_plain cm -> stored_as gunzip unxz cm (render_lines (nt_lines ts)) st ->
+        run_over_passes fa c thr (passes1 o1 o2 (Str "nt") cm (SFile st)) = Some (run_shapes fa c thr (nt_graph ts))) /\
+    (forall archive lss,
+        List.concat lss = nt_lines ts -> archive_holds unzip archive lss ->
+        run_over_passes fa c thr (passes1 o1 o2 (Str "nt") (Some c_ZIP) (SFile archive)) = Some (run_shapes fa c thr (nt_graph ts))) /\
+    (forall archives lsss,
+        List.concat (List.concat lsss) = nt_lines ts -> Forall2 (archive_holds unzip) archives lsss ->
+        run_over_passes fa c thr (passes1 o1 o2 (Str "nt") (Some c_ZIP) (SFiles archives)) = Some (run_shapes fa c thr (nt_graph ts))).
+  Proof.
+    intros H Hok.
+    assert (Hraw : run_over_passes fa c thr (passes1 o1 o2 (Str "nt") None (SRaw (render_lines (nt_lines ts))))
+                   = Some (run_shapes fa c thr (nt_graph ts))).
+    { rewrite <- (nt_text_to_graph c thr o1 o2 ts H). unfold passes.
+      rewrite (nt_raw_lines_same o1 o1 ts H Hok), (nt_raw_lines_same o2 o2 ts H Hok). reflexivity. }
+    destruct (channel_independent_nt pyfloat allow read_ttl gunzip unxz unzip rdf_parse fa c thr o1 o2 o1 o2)
+      as (A & B & C & D).
+    split; [|split; [|split]].
+    - intros cm lss stored Hc Hcm Hst. rewrite (A cm lss stored Hcm); [rewrite Hc; exact Hraw | | exact Hst].
+      apply Forall_concat_inv. rewrite Hc. exact Hok.
+    - intros cm st Hcm Hst. rewrite (B cm _ st Hcm Hok Hst). exact Hraw.
+    - intros archive lss Hc Ha. rewrite (C archive lss); [rewrite Hc; exact Hraw | | exact Ha].
+      apply Forall_concat_inv. rewrite Hc. exact Hok.
+    - intros archives lsss Hc Ha. rewrite (D archives lsss); [rewrite Hc; exact Hraw | | exact Ha].
+      apply Forall_concat_inv2. rewrite Hc. exact Hok.
+  Qed.
+
+  (** the same from the text of a TSV_SPO document (reader modelled in C08):
+      raw string and single file; the multi-file form is
+      [ChannelProofs.tsv_channel_independent] *)
+  Theorem tsv_text_to_graph read_nt c thr (o1 o2 : porc) g :
+    tsv_dom g = true -> Forall line_ok (map tsv_line_of g) ->
+    run_over_passes fa c thr (passes pyfloat read_nt read_ttl gunzip unxz unzip rdf_parse o1 o2 (Str "tsv_spo") None (SRaw (tsv_doc g)))
+    = Some (run_shapes fa c thr (kinded g)).
+  Proof.
+    intros Hd Hok.
+    destruct (tsv_channel_kinded pyfloat read_nt read_ttl gunzip unxz unzip rdf_parse o1 g Hd Hok) as [H1 HG].
+    destruct (tsv_channel_kinded pyfloat read_nt read_ttl gunzip unxz unzip rdf_parse o2 g Hd Hok) as [H2 _].
+    unfold run_over_passes, graphs_of_passes, passes. cbn [fst snd]. rewrite H1, H2, HG. reflexivity.
+  Qed.
+
+  Theorem tsv_file_to_graph read_nt c thr (o1 o2 : porc) cm g st :
+    tsv_dom g = true -> Forall line_ok (map tsv_line_of g) -> cm_plain cm ->
+    stored_as gunzip unxz cm (tsv_doc g) st ->
+    run_over_passes fa c thr (passes pyfloat read_nt read_ttl gunzip unxz unzip rdf_parse o1 o2 (Str "tsv_spo") cm (SFile st))
+    = Some (run_shapes fa c thr (kinded g)).
+  Proof.
+    intros Hd Hok Hcm Hst. rewrite <- (tsv_text_to_graph read_nt c thr o1 o2 g Hd Hok).
+    apply run_over_passes_streams; unfold passes; cbn [fst snd];
+      apply (partition_invisible_file pyfloat read_nt read_ttl gunzip unxz unzip rdf_parse _ _ _ _ cm _ st
+               (Fam_tsv pyfloat read_nt) (read_tsv_compositional pyfloat) (or_introl (read_tsv_blank_silent pyfloat)) Hcm Hok Hst).
+  Qed.
+End NtText.
